@@ -52,6 +52,8 @@ type RedisOutput struct {
 	bisyncMissRunID string
 
 	outFilter *filter.RedisKeyFilter
+	// plainFilter is applied by the plain (not bidirectional) replay on top of outFilter
+	plainFilter *filter.RedisKeyFilter
 
 	newRedisConn          func(context.Context) (client.Redis, error)
 	newRedisConnToAddress func(context.Context, string) (client.Redis, error)
@@ -163,6 +165,10 @@ func NewRedisOutput(cfg RedisOutputConfig) *RedisOutput {
 	ro.outFilter.InsertCmdBlackList(cfg.Filter.CmdBlacklist, true)
 
 	ro.outFilter.InsertPrefixKeyBlackList([]string{config.CheckpointKey, config.NamespacePrefixKey})
+	// markers and journals that a bidirectional link left in the source are bookkeeping too. The
+	// bidirectional replay recognises them itself (it has to see the markers), the plain one drops them
+	ro.plainFilter = &filter.RedisKeyFilter{}
+	ro.plainFilter.InsertPrefixKeyBlackList([]string{checkpoint.BisyncKeyPrefix})
 	keyFilter := cfg.Filter.KeyFilter
 	if keyFilter != nil {
 		ro.outFilter.InsertPrefixKeyBlackList(keyFilter.PrefixKeyBlacklist)
@@ -413,7 +419,8 @@ func (ro *RedisOutput) rdbReplay(ctx context.Context, pipe <-chan *rdb.BinEntry)
 			}
 
 			if ro.outFilter.FilterKey(util.BytesToString(e.Key)) ||
-				ro.outFilter.FilterSlot(util.BytesToString(e.Key)) {
+				ro.outFilter.FilterSlot(util.BytesToString(e.Key)) ||
+				ro.plainFilter.FilterKey(util.BytesToString(e.Key)) {
 				filterOut = true
 			}
 		}
@@ -771,6 +778,9 @@ func (ro *RedisOutput) parseAofCommand(replayQuit usync.WaitCloser, reader *bufi
 		}
 
 		newArgv, reject = ro.outFilter.FilterCmdKey(sCmd, argv)
+		if !reject {
+			newArgv, reject = ro.plainFilter.FilterCmdKey(sCmd, newArgv)
+		}
 		if (bypass && !bypassBracket) || reject {
 			ro.filterCounterAdd(1)
 			continue
